@@ -109,6 +109,19 @@ impl Drop for SSink {
         self.0.release();
     }
 }
+/// The same scripted future without ownership of what the script holds (the enter_on_poll adapters
+/// of one model adapter are built one per poll, each ahead of its poll).
+pub struct SFutRef(Slot);
+impl Future for SFutRef {
+    type Output = ();
+    fn poll(self: Pin<&mut Self>, _cx: &mut Context<'_>) -> Poll<()> {
+        if self.0.run() {
+            Poll::Ready(())
+        } else {
+            Poll::Pending
+        }
+    }
+}
 impl Future for SFut {
     type Output = ();
     fn poll(self: Pin<&mut Self>, _cx: &mut Context<'_>) -> Poll<()> {
@@ -192,7 +205,10 @@ enum Kind {
     Fut(Pin<Box<fastrace::future::InSpan<SFut>>>),
     Str(Pin<Box<fastrace_futures::InSpan<SStream>>>),
     Snk(Pin<Box<fastrace_futures::InSpan<SSink>>>),
-    Eop(Pin<Box<SFut>>),
+    /// enter_on_poll: the adapter for the next poll is built *before* that poll (right after the
+    /// previous one, or when the model adapter is created): what it decides at construction time is
+    /// decided in the context of that moment, not of the poll
+    Eop(SFut, Option<(i64, Pin<Box<fastrace::future::EnterOnPoll<SFutRef>>>)>),
 }
 
 pub struct Adapter {
@@ -208,7 +224,7 @@ impl Adapter {
         let kind = match kind {
             "str" => Kind::Str(Box::pin(SStream(slot.clone(), false, false).in_span(span))),
             "snk" => Kind::Snk(Box::pin(SSink(slot.clone()).in_span(span))),
-            "eop" => Kind::Eop(Box::pin(SFut(slot.clone()))),
+            "eop" => Kind::Eop(SFut(slot.clone()), None),
             _ => Kind::Fut(Box::pin(SFut(slot.clone()).in_span(span))),
         };
         Adapter { slot, kind, calls: 0 }
@@ -228,14 +244,15 @@ impl Adapter {
                 if fin {
                     s.as_mut().poll_close(&mut cx).is_ready()
                 } else {
-                    match self.calls % 4 {
+                    // ready, send, flush (pending), flush again, close attempt (pending), ...
+                    match self.calls % 5 {
                         1 => {
                             let _ = s.as_mut().poll_ready(&mut cx);
                         }
                         2 => {
                             let _ = s.as_mut().start_send(1);
                         }
-                        3 => {
+                        3 | 4 => {
                             let _ = s.as_mut().poll_flush(&mut cx);
                         }
                         _ => {
@@ -245,15 +262,25 @@ impl Adapter {
                     false
                 }
             }
-            Kind::Eop(inner) => {
-                // a fresh enter_on_poll adapter around the same inner for every poll (the adapter is
-                // stateless); the name of the poll's local span is the model's
-                let mut ad = inner.as_mut().enter_on_poll(crate::ops::sname(g));
-                Pin::new(&mut ad).poll(&mut cx).is_ready()
+            Kind::Eop(_, next) => {
+                // a fresh enter_on_poll adapter for every poll (the name of the poll's local span is the
+                // model's), built ahead when the name was known
+                let mut ad = match next.take() {
+                    Some((name, ad)) if name == g => ad,
+                    _ => Box::pin(SFutRef(self.slot.clone()).enter_on_poll(crate::ops::sname(g))),
+                };
+                ad.as_mut().poll(&mut cx).is_ready()
             }
         };
         // a script the inner never ran (the adapter did not call it) is discarded
         self.slot.0.lock().unwrap().take();
         ready
+    }
+
+    /// enter_on_poll: builds the adapter of the poll that will name its span `g`, now.
+    pub fn prepare(&mut self, g: i64) {
+        if let Kind::Eop(_, next) = &mut self.kind {
+            *next = Some((g, Box::pin(SFutRef(self.slot.clone()).enter_on_poll(crate::ops::sname(g)))));
+        }
     }
 }
